@@ -79,7 +79,8 @@ def offset_bytes(ctx, p):
     secs = hv * 3600 + mv * 60
     if not ctx.symbolic:
         return bs, (-secs if sg == 45 else secs)
-    return bs, z3.If(sg == 45, -secs, secs)
+    # decide the sign per path (as the parser does), so that reference and implementation build the same term
+    return bs, (-secs if ctx.branch(sg == 45) else secs)
 
 
 @harness('c05_decision', covers=['expired', 'not-expired', 'equality-instant', 'negative-offset', 'leap-day'])
